@@ -56,6 +56,11 @@ func CreateBasicStack() *BmStack {
 			}
 		},
 		"bits": func(i int) int {
+			// A module without senders (or without receivers) still declares the arbiter register
+			// of that side: its width cannot be 0 ("reg [-1:0] recvSM", "0'd0")
+			if i == 0 {
+				return 1
+			}
 			return NeededBits(i)
 		},
 	}
